@@ -1,6 +1,8 @@
 import DimodProofs.LpRound
 import DimodProofs.LpVars
 import DimodProofs.LpLex
+import DimodProofs.LpLexer
+import DimodProofs.LpNum
 
 /-! # C12 — LP text round trip preserves the constrained model or is refused
 
@@ -11,12 +13,18 @@ composed with `cylp.pyx:model_to_cqm` (0.5 factor on objective quadratic terms, 
 from the Binary / General sections).  Tied to the code on every run by `harness/props/c12.py`: the
 model's text equals `lp.dumps` byte for byte and the model's reading of that text equals `lp.loads`.
 
-Scope of the theorems: the round trip is proved on the writer's *token stream* (`readToks ∘ dumpToks`).
-Of the lexical layer, `wrap_invisible_to_reader` proves that line breaking does not change the words the
-reader sees; number formatting, the word-to-token step (`lex`) and the C++ parser `extern/filereaderlp`
-itself are covered by the correspondence run only (stated in the level note).  Interpretation (DESIGN §1): the LP grammar has no constant on a constraint's left side,
-the writer emits `lhs − c  sense  rhs − c`; hence `activity = lhs(x) − rhs` is what is preserved, and
-`rhs`, `lhs` individually when `c = 0`. -/
+Scope of the theorems: `lp_roundtrip` is stated on the token stream (`readToks ∘ dumpToks`), `lp_roundtrip_text`
+on the TEXT: `Lp.loads (Lp.dumps m) = normCqm m`, through rendering, `_WidthLimitedFile`'s line breaks, the
+blank/newline word splitter and the word→token lexer.  What remains an oracle is stated per token by `TokTextOK`:
+(a) the text of a number is a blank-free word and parses back to the number's value — `showAbs b ↦ |b|` for
+coefficients, `showFloat q ↦ q` for right-hand sides and bounds; this is *proved* for integral coefficients
+(`integer_coefficients_read_back`), assumed for non-integral decimals (Python's `repr(float)` ↔ decimal parsing;
+exercised by the correspondence run on dyadic values); (b) a variable name is not one of the 17 words of the
+writer's grammar (`classify s = other`; a label `_validate_label` accepts is already blank-free:
+`valid_label_is_word`).  The C++ parser `extern/filereaderlp` itself is not modelled: its agreement with this
+reader on writer output is established by the correspondence run only.  Interpretation (DESIGN §1): the LP
+grammar has no constant on a constraint's left side, the writer emits `lhs − c  sense  rhs − c`; hence
+`activity = lhs(x) − rhs` is what is preserved, and `rhs`, `lhs` individually when `c = 0`. -/
 
 namespace C12
 open Lp
@@ -43,6 +51,29 @@ theorem wrap_invisible_to_reader (m : LCqm) (ts : List Tok) (h : dumpToks m = .o
     List.IsChain TokSep ts ∧
     words (joinWrites (wrapWrites 0 (ts.map Tok.render))) = words (String.join (ts.map Tok.render)) :=
   ⟨dumpToks_separated m ts h, words_wrap_invariant m ts h⟩
+
+/-- **lp_roundtrip on text**: whatever model the writer accepts, the text `lp.dumps` produces (line breaks
+    included) is read back by the specification reader — words, lexer, token reader, `model_to_cqm` — as the
+    normal form `normCqm m` of the model (whose objective, constraints and variables are related to `m` by
+    `roundtrip_objective`, `roundtrip_constraints`, `roundtrip_rhs_lhs`, `roundtrip_variables`), under the
+    per-token text oracle `TokTextOK` -/
+theorem lp_roundtrip_text (m : LCqm) (text : String) (h : dumps m = .ok text)
+    (hok : ∀ ts, dumpToks m = .ok ts → ∀ t ∈ ts, TokTextOK t) : loads text = some (normCqm m) :=
+  loads_dumps m text h hok
+
+/-- the two halves separately: the words of the dumped text are the words of the tokens, and the lexer turns
+    those words back into exactly the writer's tokens -/
+theorem text_words_and_lexer (m : LCqm) (ts : List Tok) (h : dumpToks m = .ok ts) (hok : ∀ t ∈ ts, TokTextOK t) :
+    words (joinWrites (wrapWrites 0 (ts.map Tok.render))) = ts.flatMap tokWords ∧
+    (ts.flatMap tokWords).foldl lstep {} = { mode := .done, out := ts } :=
+  ⟨words_dump m ts h (fun t ht => (hok t ht).1), lex_words m ts h (fun t ht => (hok t ht).2)⟩
+
+/-- for an integral coefficient the oracle is a theorem: the printed magnitude is a word and parses back -/
+theorem integer_coefficients_read_back (b : Rat) (h : b.den = 1) : Word (showAbs b) ∧ parseDec (showAbs b) = some (absQ b) :=
+  numText_int b h
+
+/-- a label `_validate_label` accepts is a non-empty word without blanks or newlines -/
+theorem valid_label_is_word (s : String) (h : validLabel (.str s) = true) : Word s := word_of_validLabel s h
 
 /-- **lp_roundtrip** (token level): whatever model the writer accepts, the reader accepts the writer's
     token stream and returns the normal form `normCqm` of the model -/
